@@ -15,6 +15,7 @@ from typing import (
     Dict,
     cast,
     Optional,
+    Set,
 )  # pylint: disable=unused-import
 
 import asttokens.asttokens
@@ -515,6 +516,16 @@ def collect_variable_lookup(
     return variable_lookup
 
 
+def _collect_code_names(code: Any) -> Set[str]:
+    """Collect the names used in the code object and in the code objects nested in it (such as comprehensions)."""
+    names = set(code.co_names)
+    for const in code.co_consts:
+        if inspect.iscode(const):
+            names.update(_collect_code_names(const))
+
+    return names
+
+
 def repr_values(condition: Callable[..., bool], lambda_inspection: Optional[ConditionLambdaInspection],
                 resolved_kwargs: Mapping[str, Any], a_repr: reprlib.Repr) -> List[str]:
     """
@@ -568,7 +579,9 @@ def repr_values(condition: Callable[..., bool], lambda_inspection: Optional[Cond
 
         variable_lookup = collect_variable_lookup(condition=condition, resolved_kwargs=condition_kwargs)
 
-        recompute_visitor = icontract._recompute.Visitor(variable_lookup=variable_lookup)
+        recompute_visitor = icontract._recompute.Visitor(
+            variable_lookup=variable_lookup,
+            code_names=_collect_code_names(condition.__code__) if hasattr(condition, "__code__") else None)
 
         recompute_visitor.visit(node=lambda_inspection.node.body)
         recomputed_values = recompute_visitor.recomputed_values
